@@ -127,8 +127,10 @@ CHECKS["C09"] = {
             "over them. LearnerND / IntegratorLearner (utils.restore snapshot): the roll-back half is proved on the models of C04 / C07 "
             "(state as given, also when the request raises; same points and error class as the committing ask), the committing half "
             "is left to the twin oracle (listed as partial); Learner2D has no Lean model. Search: twin learners over 22 kinds, one "
-            "receiving extra non-committing asks twice (incl. requests that cannot be served and raise); every observable and every "
-            "later answer compared exactly.",
+            "receiving extra non-committing asks twice (incl. requests that cannot be served and raise, and requests larger than "
+            "Learner2D's suggestion stack); every observable and every later answer compared exactly. The recorded Learner2D stack "
+            "mechanism is recognised exactly (stack after the call = the candidates a committing ask of a deep copy produces, not "
+            "consumed); a stack rewritten in any other way is not neutralised and its later answers are reported.",
     "design_ref": "DESIGN.md section 6 C09",
     "note": "Trusted: Lean kernel, standard axioms; the models are tied to the code by the lock-step runs of C01/C02/C04/C07/C15/C16/C17/C18; "
             "utils.restore (deepcopy of __dict__) is an exact snapshot. Three defects found here were repaired by fix: commits.",
@@ -289,13 +291,16 @@ CHECKS["C04"] = {
             "lnd_ask_fresh_statement stays a stated Prop. Tie: real LearnerND in bit-exact lock-step (2-D/3-D, rect/ConvexHull, 3 losses, "
             "scalar/vector, runner-like interleavings, non-committing asks, discards). Search: the clauses of C04 on the real "
             "learner after every op with exact rational geometry (incl. every pending point rebound by a tell subdivides every "
-            "new simplex it lies in).",
+            "new simplex it lies in); every history is then replayed on a fresh learner with NOTHING observed in between (no "
+            "loss(), no read of tri) and every answer of ask must be the observed run's, or meet the clauses on the observed "
+            "state (lazy creation of the triangulation).",
     "design_ref": "DESIGN.md section 6 C04",
     "note": "Trusted: Lean kernel, standard axioms, hand model LND.lean tied by differential testing, the monkeypatch recorder, "
             "CPython round(x,8) reproduced from bit patterns. Hypotheses: truthful combinatorics of the (sub)triangulations "
             "(C03), ChooseGeom (truthful choose / point_in_simplex / sub-triangulation insert) and AskNew (the chosen point has no value; "
             "derived from ChooseLocal + DataBound) for completeness, the former ghost flag is now a theorem (lnd_chosen_subdivided, lnd_ghost_true); remove_unfinished covered since fix e79ba45. Known findings: pending point on "
-            "a hull face re-proposed (ValueError), degenerate triangulation for 1e6-aspect boxes.",
+            "a hull face re-proposed (ValueError), degenerate triangulation for 1e6-aspect boxes, a sub-simplex piece below the "
+            "triangulation's flatness threshold is not created (deficit ~4e-7 of the volume).",
     "technique": T,
 }
 _PENDING = "machinery for this property is not built yet in this commit (work in progress; see DESIGN.md section 9)"
